@@ -189,7 +189,7 @@ def run_views(ctx, case):
     rng = random.Random(case["seed"])
     inst = case["instance"]
     meta = random_metadata(rng)
-    name = rng.choice(["inst", "name with spaces", "x.y", "la01"])
+    name = rng.choice(["inst", "name with spaces", "x.y", "la01", "", "0"])
     I = JobShopInstance.from_matrices(
         [list(j) for j in inst["durations"]],
         [[list(m) for m in j] for j in inst["machines"]] if rng.random() < 0.5 or gen.is_flexible(inst)
